@@ -99,6 +99,9 @@ fn name_strategy() -> impl Strategy<Value = String> {
         1 => "[ -~]{1,6}",
         1 => "[a-c/\\\\:!.\u{3800}\u{4800}\u{4840}é]{1,4}",
         1 => "\\PC{1,5}",
+        // a long packable head with a reserved character (container-reserved,
+        // or from the ranges the packing itself uses) far from the start
+        1 => ("[a-zA-Z0-9._]{30,58}", prop::sample::select(vec!['/', '\\', ':', '!', '\u{3800}', '\u{3b3f}', '\u{47ff}', '\u{4800}', '\u{4821}', '\u{4840}']), "[a-z]{0,2}").prop_map(|(head, c, tail)| format!("{head}{c}{tail}")),
         // long names of multi-byte characters around the 31-unit limit, with
         // a short ASCII prefix that shifts every byte offset
         1 => ("[a-c]{0,3}", prop::sample::select(vec!['é', '日', 'ж', '😀', 'ก']), 14usize..40).prop_map(|(p, c, n)| format!("{p}{}", c.to_string().repeat(n))),
